@@ -48,7 +48,7 @@ def run(ctx):
     obligations, discharged, names = core.standard_prelude(ctx, ["ZCV.Props.C14"])
     n_s, n_t = (700, 40) if ctx.thorough() else (70, 20)
     rng = ctx.rng
-    base = cfgstream.gen_cases(ctx, n_s, n_t, nfaults=(0,), plain=True)
+    base = cfgstream.gen_cases(ctx, n_s, n_t, nfaults=(0,), plain=True, systematic=False)
     cfgstream.evaluate(ctx, base)
     ov, ed = [], []
     for c in base:
